@@ -72,6 +72,7 @@ pub fn result_json(scn: &Scenario) -> Value {
             Res::Err(e) => json!({"res": "err", "text": err_text(e), "api_state": matches!(e, ErrKind::PlannerUninitialised | ErrKind::InvalidStartState | ErrKind::UnsampledStateSpace)}),
             Res::Panic(m) => json!({"res": "panic", "text": m}),
             Res::Abort(m) => json!({"res": "abort", "text": m}),
+            Res::UserPanic => json!({"res": "user_panic"}),
         })
         .collect();
     if std::env::var("VERIF_DEBUG").is_ok() {
